@@ -8,12 +8,16 @@
   Gen/PackLayouts.lean); `agrees w r` is decided by evaluation for every pack type
   (Props/C03Gen.lean); `pack_roundtrip` (below, proved once by induction on the layouts) turns
   each such fact into the round trip of that type for *all* field values, both header forms, any
-  continuation of the input.  The tagged value codec inside map-valued fields is property C02; it
-  enters as the explicit hypothesis bundle `ValueRT` (its round trip), nothing else is assumed.
+  continuation of the input.  The tagged value codec inside map-valued fields is property C02: its
+  theorem `Value.decode_encV` is plugged in (`Layout.valueRT`), so the statements below carry no
+  hypothesis about values beyond well-formedness (`Value.WFV`, inside `L.WF`).
   gzip is abstract (`Packs.Gzip`: unzip ∘ zip = id).
 -/
 import Golib.Layout.Agree
 import Golib.Layout.Reencode
+import Golib.Layout.ValueInst
+import Golib.Layout.Prefix
+import Golib.Packs.Profile
 import Golib.Packs.Container
 import Golib.Packs.Tree
 import Golib.Packs.Hand
@@ -49,8 +53,8 @@ theorem header_long (h : Hdr) (hk : ¬ (h.okind = 0 ∧ h.onode = 0)) :
 
 /-! ### every primitive of the layouts -/
 
-theorem prim_roundtrip (vr : ValueRT) (p : Layout.Prim) (v : Val) (r : Bytes) (h : Layout.Prim.wf vr p v) :
-    p.decode (p.encode v ++ r) = some (v, r) := Layout.Prim.rt vr p v r h
+theorem prim_roundtrip (p : Layout.Prim) (v : Val) (r : Bytes) (h : Layout.Prim.wf valueRT p v) :
+    p.decode (p.encode v ++ r) = some (v, r) := Layout.Prim.rt valueRT p v r h
 
 /-! ### the generic round trip -/
 
@@ -58,28 +62,42 @@ theorem prim_roundtrip (vr : ValueRT) (p : Layout.Prim) (v : Val) (r : Bytes) (h
     meeting the writer's explicit guards (ranges of the Go field types, blob < 2^31, arrays ≤ 32767)
     reading what was written delivers exactly the carried fields `w.expect`, in wire order, and
     leaves exactly what followed the encoding -/
-theorem pack_roundtrip (vr : ValueRT) (w r : L) (h : agrees w r = true)
-    (E : Env) (pfx : String) (x : Rec) (rest : Bytes) (hwf : w.WF vr E pfx x) :
+theorem pack_roundtrip (w r : L) (h : agrees w r = true)
+    (E : Env) (pfx : String) (x : Rec) (rest : Bytes) (hwf : w.WF valueRT E pfx x) :
     ∃ E', r.read pfx E (w.write E pfx x ++ rest) = some (w.expect E pfx x, E', rest) :=
-  agree_roundtrip vr w r h E pfx x rest hwf
+  agree_roundtrip valueRT w r h E pfx x rest hwf
 
 /-- **re-encoding is byte-identical**: serialising the fields the reader delivered reproduces exactly
     the bytes that were read -/
-theorem pack_reencode (vr : ValueRT) (w r : L) (h : agrees w r = true)
-    (E : Env) (pfx : String) (x : Rec) (rest : Bytes) (hwf : w.WF vr E pfx x) :
+theorem pack_reencode (w r : L) (h : agrees w r = true) (hk : w.known = true)
+    (E : Env) (pfx : String) (x : Rec) (rest : Bytes) (hwf : w.WF valueRT E pfx x) :
     ∃ o E', r.read pfx E (w.write E pfx x ++ rest) = some (o, E', rest) ∧
       w.encodeOut E o = some (w.write E pfx x, []) :=
-  reencode_identical vr w r h E pfx x rest hwf
+  reencode_identical valueRT w r h hk E pfx x rest hwf
 
 /-- the encoding depends on the carried fields only: packs equal on them encode identically -/
 theorem carried_determines_bytes (w : L) (hk : w.known = true) (E : Env) (pfx : String) (x y : Rec)
     (h : w.expect E pfx x = w.expect E pfx y) : w.write E pfx x = w.write E pfx y :=
   write_eq_of_expect_eq w hk E pfx x y h
 
+/-- **a strict prefix never decodes** (layout level): whatever reader layout without an end-of-input
+    test, if `q ++ s` is read completely and `s ≠ []`, the strict prefix `q` is rejected.  (Every
+    primitive decoder is append-stable: the `P` programs by `P.locality`, the tagged value decoder by
+    C04's tail-free instrumented decoder.) -/
+theorem layout_prefix_fails (l : L) (hn : l.tailFree = true) (pfx : String) (e : Env) (q s : Bytes)
+    (o : Out) (e' : Env) (hs : s ≠ []) (h : l.read pfx e (q ++ s) = some (o, e', [])) :
+    l.read pfx e q = none := read_prefix_fails l hn pfx e q s o e' hs h
+
+/-- … hence no strict prefix of the encoding of a well-formed pack is accepted by its reader -/
+theorem pack_prefix_fails (w r : L) (h : agrees w r = true) (hn : r.tailFree = true)
+    (E : Env) (pfx : String) (x : Rec) (hwf : w.WF valueRT E pfx x) (q s : Bytes) (hs : s ≠ [])
+    (hq : q ++ s = w.write E pfx x) : r.read pfx E q = none :=
+  encoding_prefix_fails valueRT w r h hn E pfx x hwf q s hs hq
+
 /-- **type-tagged round trip** (`ToPack (ToBytesPack p)`): the tag written selects, in the factory, the
     reader of the same type; the decoded pack has that type code and the carried fields -/
-theorem tagged_roundtrip (vr : ValueRT) (fac : Factory) (p : PV) (rest : Bytes) (h : p.ok vr fac) :
-    readPack fac (writePack p ++ rest) = some (p.carried, rest) := readPack_writePack vr fac p rest h
+theorem tagged_roundtrip (fac : Factory) (p : PV) (rest : Bytes) (h : p.ok valueRT fac) :
+    readPack fac (writePack p ++ rest) = some (p.carried, rest) := readPack_writePack valueRT fac p rest h
 
 /-- a type code the factory does not know does not decode (CreatePack returns nil) -/
 theorem unknown_code_fails (fac : Factory) (code : Int) (body : Bytes) (hc : inRange 2 code)
@@ -92,17 +110,17 @@ theorem unknown_code_fails (fac : Factory) (code : Int) (body : Bytes) (hc : inR
 
 /-- ZipPack: `GetRecords (SetRecords ps)` = the inner packs, in order, stamped with the container's
     Pcode/Oid/Okind/Onode -/
-theorem zip_records (vr : ValueRT) (fac : Factory) (z : Zip) (ps : List PV) (h : ∀ p ∈ ps, p.ok vr fac) :
+theorem zip_records (fac : Factory) (z : Zip) (ps : List PV) (h : ∀ p ∈ ps, p.ok valueRT fac) :
     (z.setRecords ps).getRecords fac = some (ps.map (fun p => stamp z.hdr p.carried)) :=
-  Packs.zip_records vr fac z ps h
+  Packs.zip_records valueRT fac z ps h
 
 /-- LogSinkZipPack, with or without compression (whatever the threshold) -/
-theorem logsink_zip_records (vr : ValueRT) (g : Gzip) (fac : Factory) (hdr : Hdr) (ps : List PV)
-    (zipMinSize : Nat) (h : ∀ p ∈ ps, p.ok vr fac) :
+theorem logsink_zip_records (g : Gzip) (fac : Factory) (hdr : Hdr) (ps : List PV)
+    (zipMinSize : Nat) (h : ∀ p ∈ ps, p.ok valueRT fac) :
     let st := doZip g 0 (writePacks ps) zipMinSize
     (Zip.getRecords fac ⟨hdr, doUnZip g st.1 st.2, ps.length⟩)
       = some (ps.map (fun p => stamp hdr p.carried)) :=
-  Packs.logsink_zip_records vr g fac hdr ps zipMinSize h
+  Packs.logsink_zip_records valueRT g fac hdr ps zipMinSize h
 
 /-- stamping touches the four identity fields only (Time and every body field are the inner pack's) -/
 theorem stamp_only_identity (h : Hdr) (k : String) (v : Val)
@@ -110,24 +128,35 @@ theorem stamp_only_identity (h : Hdr) (k : String) (v : Val)
   simp [stampField, hk.1, hk.2.1, hk.2.2.1, hk.2.2.2]
 
 /-- CompositePack (one level of nesting; deeper nesting is exercised by the harness) -/
-theorem composite_roundtrip (vr : ValueRT) (fac : Factory) (h : Hdr) (ps : List PV) (rest : Bytes)
-    (hh : h.WF) (hn : ps.length ≤ 32767) (hp : ∀ p ∈ ps, p.ok vr fac) :
+theorem composite_roundtrip (fac : Factory) (h : Hdr) (ps : List PV) (rest : Bytes)
+    (hh : h.WF) (hn : ps.length ≤ 32767) (hp : ∀ p ∈ ps, p.ok valueRT fac) :
     readComposite fac (writeComposite h ps ++ rest) = some ((h, ps.map PV.carried), rest) :=
-  Packs.composite_roundtrip vr fac h ps rest hh hn hp
+  Packs.composite_roundtrip valueRT fac h ps rest hh hn hp
 
 /-- CompositePack to any depth: a tree of packs reads back as itself (every leaf's carried fields,
     every node's header, same shape and order), by structural recursion on the tree -/
-theorem composite_tree_roundtrip (vr : ValueRT) (fac : Factory) (t : PT) (rest : Bytes)
-    (hok : okPT vr fac t) :
+theorem composite_tree_roundtrip (fac : Factory) (t : PT) (rest : Bytes)
+    (hok : okPT valueRT fac t) :
     readPT fac (depthPT t) (writePT t ++ rest) = some (carriedPT t, rest) :=
-  tree_roundtrip vr fac t (depthPT t) rest hok (Nat.le_refl _)
+  tree_roundtrip valueRT fac t (depthPT t) rest hok (Nat.le_refl _)
 
 /-- record lists (`SetRecords*` / `GetRecords`): 16-bit count, then the records -/
-theorem records_roundtrip (vr : ValueRT) (bw br : L) (h : agrees (recordsW bw) (recordsW br) = true)
-    (e : Env) (x : Rec) (rest : Bytes) (hwf : (recordsW bw).WF vr e "" x) :
+theorem records_roundtrip (bw br : L) (h : agrees (recordsW bw) (recordsW br) = true)
+    (e : Env) (x : Rec) (rest : Bytes) (hwf : (recordsW bw).WF valueRT e "" x) :
     ∃ e', (recordsW br).read "" e ((recordsW bw).write e "" x ++ rest)
       = some ((recordsW bw).expect e "" x, e', rest) :=
-  Packs.records_roundtrip vr bw br h e x rest hwf
+  Packs.records_roundtrip valueRT bw br h e x rest hwf
+
+/-! ### ProfilePack: the common header, then the body modelled and proved by property C08 -/
+
+/-- header (both forms) + TxRecord behind its version byte + steps blob: every carried field of the
+    transaction record (C08's `Step.profilePackBody.expect`, incl. the documented ErrorLevel defaulting),
+    exact consumption.  Nothing of TxRecord is re-modelled: `Step.L.roundtrip` is composed with
+    `header_roundtrip`. -/
+theorem profile_roundtrip (h : Hdr) (x : Step.Rec) (rest : Bytes) (hh : h.WF)
+    (hx : Step.profilePackBody.WF Step.valueRT x []) :
+    readProfile (writeProfile h x ++ rest) = some ((h, Step.profilePackBody.expect x []), rest) :=
+  Packs.profile_roundtrip h x rest hh hx
 
 /-! ### EventPack: uuid / escalation / status / otype travel inside the attribute table -/
 
@@ -171,10 +200,6 @@ theorem finding_D27_extra_tag : agrees Counter.extra.w Counter.extra.r = false :
 
 /-! ### non-vacuity -/
 
-/-- a trivially true instance of the C02 bundle for values that are never used (so that the examples
-    below do not depend on C02) -/
-def noValues : ValueRT := ⟨fun _ => False, fun _ _ h => h.elim⟩
-
 def demoL : L := .hdr (.lit .u8 1 (.fld "Seq" .i64 .i64 (.fld "Name" .blob .any
   (.rep .dec "T" (.fld "k" .i32 .i32 .nil) .nil))))
 def demoR : L := .hdr (.var "ver" .u8 (.fld "Seq" .i64 .i64 (.fld "Name" .blob .any
@@ -194,6 +219,22 @@ example : demoL.write env0 "" demoX =
 
 example : (demoR.read "" env0 (demoL.write env0 "" demoX ++ [42])).map (fun (o, _, r) => (o.length, r))
     = some (10, [42]) := by decide +kernel
+
+/-- the marker / version idiom of the CounterPack1 meters, a fixed-count loop, a struct-valued field
+    and an OS-like selector, on a small instance -/
+def demoW2 : L := .kfld "OS" .i16 2 (.times 2 "" (.fld "Hit" .u16 .any .nil)
+  (.mrep 9 "M" (.fld "key" .i32 .i32 (.fld "Actx" .dec .i32 .nil)) (.sub "S" (.fld "a" .u8 .u8 .nil) .nil)))
+def demoR2 : L := .key "OS" .i16 "os" (.times 2 "" (.fld "Hit" .u16 .any .nil)
+  (.vrep "ver" "M" (.fld "key" .i32 .i32 (.ite ⟨.ge, "ver", 9⟩ (.fld "Actx" .dec .i32 .nil) .nil .nil))
+    (.ite ⟨.eq, "os", 2⟩ (.sub "S" (.fld "a" .u8 .u8 .nil) .nil) .nil .nil)))
+def demoX2 : Rec := fun k =>
+  if k = "OS" then .int 2 else if k = "[0].Hit" then .int 65535 else if k = "[1].Hit" then .int 1
+  else if k = "M?" then .int 1 else if k = "M#" then .int 1 else if k = "M[0].key" then .int (-7)
+  else if k = "M[0].Actx" then .int 3 else if k = "S.a" then .int 200 else .int 0
+example : agrees demoW2 demoR2 = true := by decide
+example : demoW2.write env0 "" demoX2 = [0, 2, 255, 255, 0, 1, 9, 1, 1, 255, 255, 255, 249, 1, 3, 200] := by decide +kernel
+example : (demoR2.read "" env0 (demoW2.write env0 "" demoX2 ++ [5])).map (fun (o, _, r) => (o.length, r))
+    = some (7, [5]) := by decide +kernel
 
 example : (⟨300, 1, 7, 0, 99⟩ : Hdr).WF := by decide
 example : encHeader ⟨0, 1, 0, 0, 2⟩ = [0, 0, 0, 0, 1, 0, 0, 0, 0, 0, 0, 0, 2] := by decide
